@@ -35,6 +35,7 @@ Tails  == {"(u)", "(/a \"t\")", "(/a 't')", "(/a (t))", "(<a b>)", "()", "(u \"x
            "(<> \"t\")", "(\\(u)", "(u 'i\\'s \"q\"')", "(u \"t&NewLine;v\")"}
 LinkBodies == {B1, B2, B3, B6, B7, B11, B12, B13, B14}
 Links  == {Link(b, "(u)") : b \in LinkBodies} \cup {Link(B1, t) : t \in Tails} \cup {Link(B2, "(u \"x y\")")}
+          \cup {Link(B1, t) : t \in {"(<)(>)", "(\\)\\()", "(<(()>)", "(())", "(<a (b)>)", "(u \"(t)\")", "(u (\\(t\\)))", "(u \"a)b\")"}}
 Imgs   == {Img(b, "(u)") : b \in {B1, B2, B7, B3, B13}} \cup {Img(B1, t) : t \in {"(/a \"t\")", "(<a b>)", "()", "(u \"x y\")"}}
 Brs    == {Br("\\"), Br("  ")}
 
@@ -96,11 +97,26 @@ CoreAtx    == {[lvl |-> 1, closer |-> ""], [lvl |-> 2, closer |-> " #"]}
 FullQuotes == {[ind |-> 0, marker |-> "> "], [ind |-> 0, marker |-> ">"], [ind |-> 2, marker |-> "> "], [ind |-> 3, marker |-> ">"]}
 CoreQuotes == {[ind |-> 0, marker |-> "> "], [ind |-> 1, marker |-> ">"]}
 LS(k, ind, c, n, p, loose) == [k |-> k, ind |-> ind, c |-> c, n |-> n, p |-> p, loose |-> loose]
-FullLists  == {LS("ulist", ind, c, 0, p, l) : ind \in {0, 2}, c \in {"-", "+", "*"}, p \in {1, 3, 4}, l \in BOOLEAN}
-              \cup {LS("olist", ind, c, n, p, l) : ind \in {0, 3}, c \in {".", ")"}, n \in {1, 7, 10}, p \in {1, 2}, l \in BOOLEAN}
+FullLists  == {LS("ulist", ind, c, 0, p, l) : ind \in {0, 2}, c \in {"-", "+", "*"}, p \in {0, 1, 3, 4}, l \in BOOLEAN}
+              \cup {LS("olist", ind, c, n, p, l) : ind \in {0, 3}, c \in {".", ")"}, n \in {1, 7, 10}, p \in {0, 1, 2}, l \in BOOLEAN}
 CoreLists  == {LS("ulist", 0, "-", 0, 1, TRUE), LS("ulist", 0, "*", 0, 3, FALSE), LS("ulist", 2, "+", 0, 1, TRUE),
                LS("olist", 0, ".", 1, 1, TRUE), LS("olist", 0, ")", 7, 2, FALSE)}
 TinyLists  == {LS("ulist", 0, "-", 0, 1, TRUE), LS("ulist", 0, "*", 0, 3, FALSE), LS("olist", 0, ".", 1, 1, FALSE)}
+(* the "blank-start" scope: items that start with a blank line, empty items followed by one or two
+   blank lines and an indented paragraph, at top level and inside blockquotes / list items *)
+BlankLists == {LS("ulist", 0, "-", 0, 0, TRUE), LS("olist", 0, ")", 7, 0, FALSE)}
+BlankWheel == <<"para", "quote", "list">>
+WordOnly   == {W("a")}
+WordWheel  == <<"w">>
+(* the "link-tails" scope: destinations over parentheses in every order and nesting, bare / escaped /
+   in angle brackets, titles in the three quote styles *)
+ParenTails == {"(<)(>)", "(\\)\\()", "(<(()>)", "(\\(\\(\\))", "(<)>)", "(\\))", "(<(>)", "(())", "((()))", "(a(b)c)", "(\\(u)",
+               "(<a (b)>)", "(<a b>)", "(u \"(t)\")", "(u '(t)')", "(/a (t))", "(u (\\(t\\)))", "(u \"a)b\")", "(u ')(')",
+               "(<)(> \"t\")", "(u)", "()", "(<> \"t\")", "(u 'i\\'s \"q\"')"}
+TailAtoms  == {W("a")} \cup {Link(B1, t) : t \in ParenTails}
+              \cup {Img(B1, t) : t \in {"(<)(>)", "(\\)\\()", "(<(()>)", "(())", "(<a (b)>)", "(u \"(t)\")", "(u (\\(t\\)))", "(<)(> \"t\")"}}
+TailWheel  == <<"w", "link", "img">>
+SpOnly     == {"sp"}
 TinyAtx    == {[lvl |-> 2, closer |-> " #"]}
 TinyQuotes == {[ind |-> 0, marker |-> "> "]}
 
